@@ -1,6 +1,7 @@
 (* GoFuncs_proofs.v — the Gallina transcriptions of Go functions that `harness gen-go` regenerates from
    the library's SOURCE TEXT on every run (gen/GoFuncs.v) are extensionally equal to the hand-written
-   model functions the property theorems are stated about (Codec.v, DecodeSafe.v, Settings.v, Nested.v).
+   model functions the property theorems are stated about (Codec.v, DecodeSafe.v, Settings.v, Nested.v,
+   and the rebalancing decisions of ArrayTree.v / MapTree.v).
    An edit of such a Go function changes GoFuncs.v and makes the matching lemma below fail.
 
    Domains: every lemma is for ALL arguments unless a hypothesis restricts it to the range of the Go
@@ -9,7 +10,7 @@
 From Coq Require Import NArith ZArith List Bool Lia ZifyBool ZifyN.
 From AtreeGen Require Import Consts CodecConsts.
 From AtreeGen Require GoFuncs.
-From AtreeModel Require Codec Settings DecodeSafe Nested.
+From AtreeModel Require Codec Settings DecodeSafe Nested ArrayTree MapTree.
 Import ListNotations.
 Local Open Scope N_scope.
 Ltac Zify.zify_post_hook ::= Z.div_mod_to_equations.
@@ -390,6 +391,266 @@ Proof.
   unfold c_singleElementPrefixSize. split; [reflexivity|]. subst E. lia.
 Qed.
 
+(* ------------------------------------------------------------------------------------------ *)
+(* rebalancing decision predicates of the slab trees (array_data_slab.go, array_metadata_slab.go, *)
+(* map_data_slab.go, map_metadata_slab.go): IsFull / IsUnderflow / CanLendToLeft / CanLendToRight *)
+(*                                                                                            *)
+(* The translator replaces the struct receiver by the scalar fields the method reads          *)
+(* (a.header.size -> a_header_size, m.anySize -> m_anySize) and passes the package variables   *)
+(* minThreshold / maxThreshold as leading parameters.  The model functions ArrayTree.n_is_full, *)
+(* n_underflow, n_can_lend_to_left/right (index slabs) and the MapTree ones are the decisions   *)
+(* the C05 theorems (props/C05.v, C05_map.v, C05_maptree.v) are about.                          *)
+(* Domains: the models use unbounded N and truncated subtraction; the Go code uint32.  The     *)
+(* hypotheses below are exactly what excludes uint32 wrap-around: the threshold and the cached *)
+(* size are uint32 values, and for CanLendTo* the requested size plus one child header fits in *)
+(* uint32 (the caller passes an underflow deficit, which is below minThreshold <= 16384).      *)
+(* ------------------------------------------------------------------------------------------ *)
+
+Definition two32 : N := 4294967296.
+
+(* -- uintN(math.Ceil(float64(u) / c)) is emitted as (u + (c - 1)) / c : the integer side of the     *)
+(*    exactness argument of harness/gengo_expr.go                                                    *)
+
+Lemma gen_ceil_div_eq : forall u c, 0 < c -> (u + (c - 1)) / c = ArrayTree.ceil_div u c.
+Proof. intros u c H. unfold ArrayTree.ceil_div. f_equal. lia. Qed.
+
+(* it IS the ceiling of the rational u/c: the least n with u <= n * c *)
+Lemma gen_ceil_div_is_ceiling :
+  forall u c, 0 < c ->
+    u <= (u + (c - 1)) / c * c /\ (forall n, u <= n * c -> (u + (c - 1)) / c <= n).
+Proof.
+  intros u c H.
+  pose proof (N.div_mod (u + (c - 1)) c ltac:(lia)) as D.
+  pose proof (N.mod_lt (u + (c - 1)) c ltac:(lia)) as M.
+  set (q := (u + (c - 1)) / c) in *. set (r := (u + (c - 1)) mod c) in *.
+  split; [lia|]. intros n Hn.
+  destruct (N.le_gt_cases q n) as [L|G]; [exact L|exfalso].
+  assert (n + 1 <= q) as Q by lia.
+  assert (c * (n + 1) <= c * q) as Q2 by (apply N.mul_le_mono_l; exact Q). lia.
+Qed.
+
+(* when c divides u the float64 quotient is the exact integer u/c; otherwise u/c is at least 1/c >= 2^-20
+   away from the two neighbouring integers q = u/c (floor) and q+1, which is more than the rounding error
+   (at most 2^-22 below 2^32) of the float64 division, and the ceiling is q+1 *)
+Lemma gen_ceil_div_exact_case :
+  forall u c, 0 < c -> u mod c = 0 -> (u + (c - 1)) / c = u / c /\ u = u / c * c.
+Proof.
+  intros u c H Hm. pose proof (N.div_mod u c ltac:(lia)) as D. rewrite Hm in D.
+  split; [|lia]. symmetry. apply N.div_unique with (r := c - 1); lia.
+Qed.
+
+Lemma gen_ceil_div_gap :
+  forall u c, 0 < c -> c <= 1048576 -> u mod c <> 0 ->
+    let q := u / c in
+    c <= (u - q * c) * 1048576 /\ c <= ((q + 1) * c - u) * 1048576 /\ (u + (c - 1)) / c = q + 1.
+Proof.
+  intros u c H Hc Hm q. subst q.
+  pose proof (N.div_mod u c ltac:(lia)) as D. pose proof (N.mod_lt u c ltac:(lia)) as M.
+  set (q := u / c) in *. set (r := u mod c) in *.
+  repeat split; try lia.
+  symmetry. apply N.div_unique with (r := r - 1); lia.
+Qed.
+
+(* -- the results of IsUnderflow: (deficit, true) / (0, false) *)
+Definition underflow_result (o : option N) : N * bool :=
+  match o with Some d => (d, true) | None => (0, false) end.
+
+Lemma gen_underflow_aux :
+  forall mn sz, mn < two32 ->
+    (if sz <? mn then ((mn + 4294967296 - sz) mod 4294967296, true) else (0, false))
+    = underflow_result (if sz <? mn then Some (mn - sz) else None).
+Proof.
+  intros mn sz H. unfold two32 in H. destruct (sz <? mn) eqn:E; [|reflexivity].
+  cbn [underflow_result]. rewrite (wrap_sub32 mn sz) by lia. reflexivity.
+Qed.
+
+(* what both index slab kinds compute for CanLendToLeft / CanLendToRight with header size hs *)
+Lemma gen_can_lend_aux :
+  forall hs mn sz need, 0 < hs -> sz < two32 -> need + hs <= two32 ->
+    (let n := (need + (hs - 1)) / hs in
+     if (hs * n) mod 4294967296 <=? sz
+     then mn <? (sz + 4294967296 - (hs * n) mod 4294967296) mod 4294967296 else false)
+    = (let k := ArrayTree.ceil_div need hs in
+       if hs * k <=? sz then mn <? sz - hs * k else false).
+Proof.
+  intros hs mn sz need Hh Hs Hn. unfold two32 in *. cbv zeta.
+  rewrite (gen_ceil_div_eq need hs Hh).
+  destruct (gen_ceil_div_is_ceiling need hs Hh) as [_ Hleast].
+  rewrite (gen_ceil_div_eq need hs Hh) in Hleast.
+  set (k := ArrayTree.ceil_div need hs) in *.
+  (* hs * k < need + hs: k is the LEAST multiple count covering need *)
+  assert (Hk : hs * k < need + hs).
+  { destruct (N.eq_dec k 0) as [->|Hk0]; [lia|].
+    destruct (N.le_gt_cases (need + hs) (hs * k)) as [L|G]; [exfalso|exact G].
+    assert (need <= (k - 1) * hs) as Hc by (rewrite N.mul_sub_distr_r; lia).
+    specialize (Hleast (k - 1) Hc). lia. }
+  rewrite (N.mod_small (hs * k)) by lia.
+  destruct (hs * k <=? sz) eqn:E; [|reflexivity].
+  rewrite (wrap_sub32 sz (hs * k)) by lia. reflexivity.
+Qed.
+
+Lemma pos14 : 0 < 14. Proof. reflexivity. Qed.
+Lemma pos18 : 0 < 18. Proof. reflexivity. Qed.
+
+(* -- arrays -------------------------------------------------------------------------------- *)
+
+Lemma gen_ArrayDataSlab_IsFull_eq :
+  forall c h nx es,
+    GoFuncs.ArrayDataSlab_IsFull (Settings.cmax c) (ArrayTree.h_size h) = ArrayTree.n_is_full c (ArrayTree.AD h nx es).
+Proof. reflexivity. Qed.
+
+Lemma gen_ArrayMetaDataSlab_IsFull_eq :
+  forall c h hs sums cs,
+    GoFuncs.ArrayMetaDataSlab_IsFull (Settings.cmax c) (ArrayTree.h_size h) = ArrayTree.n_is_full c (ArrayTree.AM h hs sums cs).
+Proof. reflexivity. Qed.
+
+Lemma gen_ArrayDataSlab_IsUnderflow_eq :
+  forall c h nx es, Settings.cmin c < two32 ->
+    GoFuncs.ArrayDataSlab_IsUnderflow (Settings.cmin c) (ArrayTree.h_size h)
+    = underflow_result (ArrayTree.n_underflow c (ArrayTree.AD h nx es)).
+Proof. intros c h nx es H. exact (gen_underflow_aux (Settings.cmin c) (ArrayTree.h_size h) H). Qed.
+
+Lemma gen_ArrayMetaDataSlab_IsUnderflow_eq :
+  forall c h hs sums cs, Settings.cmin c < two32 ->
+    GoFuncs.ArrayMetaDataSlab_IsUnderflow (Settings.cmin c) (ArrayTree.h_size h)
+    = underflow_result (ArrayTree.n_underflow c (ArrayTree.AM h hs sums cs)).
+Proof. intros c h hs sums cs H. exact (gen_underflow_aux (Settings.cmin c) (ArrayTree.h_size h) H). Qed.
+
+Lemma gen_ArrayMetaDataSlab_CanLendToLeft_eq :
+  forall c h hs sums cs need, ArrayTree.h_size h < two32 -> need + c_arraySlabHeaderSize <= two32 ->
+    GoFuncs.ArrayMetaDataSlab_CanLendToLeft (Settings.cmin c) (ArrayTree.h_size h) need
+    = ArrayTree.n_can_lend_to_left c (ArrayTree.AM h hs sums cs) need.
+Proof.
+  intros c h hs sums cs need H1 H2.
+  exact (gen_can_lend_aux 14 (Settings.cmin c) (ArrayTree.h_size h) need pos14 H1 H2).
+Qed.
+
+Lemma gen_ArrayMetaDataSlab_CanLendToRight_eq :
+  forall c h hs sums cs need, ArrayTree.h_size h < two32 -> need + c_arraySlabHeaderSize <= two32 ->
+    GoFuncs.ArrayMetaDataSlab_CanLendToRight (Settings.cmin c) (ArrayTree.h_size h) need
+    = ArrayTree.n_can_lend_to_right c (ArrayTree.AM h hs sums cs) need.
+Proof.
+  intros c h hs sums cs need H1 H2.
+  exact (gen_can_lend_aux 14 (Settings.cmin c) (ArrayTree.h_size h) need pos14 H1 H2).
+Qed.
+
+(* -- maps.  A data slab of the tree (root or child of an index slab) has anySize = false: the flag is
+      set only on external collision-group slabs, which are not nodes of MapTree.v; for those
+      IsFull / IsUnderflow answer "no" whatever the size. ------------------------------------ *)
+
+Lemma gen_MapDataSlab_IsFull_eq :
+  forall c h nx es,
+    GoFuncs.MapDataSlab_IsFull (Settings.cmax c) (MapTree.mh_size h) false = MapTree.n_is_full c (MapTree.MD h nx es).
+Proof. reflexivity. Qed.
+
+Lemma gen_MapDataSlab_IsFull_anysize : forall mx sz, GoFuncs.MapDataSlab_IsFull mx sz true = false.
+Proof. reflexivity. Qed.
+
+Lemma gen_MapMetaDataSlab_IsFull_eq :
+  forall c h hs cs,
+    GoFuncs.MapMetaDataSlab_IsFull (Settings.cmax c) (MapTree.mh_size h) = MapTree.n_is_full c (MapTree.MM h hs cs).
+Proof. reflexivity. Qed.
+
+Lemma gen_MapDataSlab_IsUnderflow_eq :
+  forall c h nx es, Settings.cmin c < two32 ->
+    GoFuncs.MapDataSlab_IsUnderflow (Settings.cmin c) (MapTree.mh_size h) false
+    = underflow_result (MapTree.n_underflow c (MapTree.MD h nx es)).
+Proof. intros c h nx es H. exact (gen_underflow_aux (Settings.cmin c) (MapTree.mh_size h) H). Qed.
+
+Lemma gen_MapDataSlab_IsUnderflow_anysize : forall mn sz, GoFuncs.MapDataSlab_IsUnderflow mn sz true = (0, false).
+Proof. reflexivity. Qed.
+
+Lemma gen_MapMetaDataSlab_IsUnderflow_eq :
+  forall c h hs cs, Settings.cmin c < two32 ->
+    GoFuncs.MapMetaDataSlab_IsUnderflow (Settings.cmin c) (MapTree.mh_size h)
+    = underflow_result (MapTree.n_underflow c (MapTree.MM h hs cs)).
+Proof. intros c h hs cs H. exact (gen_underflow_aux (Settings.cmin c) (MapTree.mh_size h) H). Qed.
+
+Lemma gen_MapMetaDataSlab_CanLendToLeft_eq :
+  forall c h hs cs need, MapTree.mh_size h < two32 -> need + c_mapSlabHeaderSize <= two32 ->
+    GoFuncs.MapMetaDataSlab_CanLendToLeft (Settings.cmin c) (MapTree.mh_size h) need
+    = MapTree.n_can_lend_to_left c (MapTree.MM h hs cs) need.
+Proof.
+  intros c h hs cs need H1 H2.
+  exact (gen_can_lend_aux 18 (Settings.cmin c) (MapTree.mh_size h) need pos18 H1 H2).
+Qed.
+
+Lemma gen_MapMetaDataSlab_CanLendToRight_eq :
+  forall c h hs cs need, MapTree.mh_size h < two32 -> need + c_mapSlabHeaderSize <= two32 ->
+    GoFuncs.MapMetaDataSlab_CanLendToRight (Settings.cmin c) (MapTree.mh_size h) need
+    = MapTree.n_can_lend_to_right c (MapTree.MM h hs cs) need.
+Proof.
+  intros c h hs cs need H1 H2.
+  exact (gen_can_lend_aux 18 (Settings.cmin c) (MapTree.mh_size h) need pos18 H1 H2).
+Qed.
+
+(* -- the hypotheses hold for every configuration setThreshold can produce, and for every request an
+      underflowing sibling can make (its deficit is at most minThreshold) *)
+Lemma gen_predicate_domain :
+  forall T need, Settings.valid_T T -> need <= Settings.cmin (Settings.set_threshold T) ->
+    Settings.cmin (Settings.set_threshold T) < two32
+    /\ need + c_arraySlabHeaderSize <= two32 /\ need + c_mapSlabHeaderSize <= two32.
+Proof.
+  intros T need [H1 H2] Hn. unfold c_minSlabSize, c_maxSlabSize in *.
+  unfold Settings.set_threshold in *. cbn [Settings.cmin] in *.
+  unfold two32, c_arraySlabHeaderSize, c_mapSlabHeaderSize. lia.
+Qed.
+
+(* -- all predicates of one container kind at once (stated in props/C05_gen.v) *)
+Lemma gen_array_predicates_eq :
+  forall c h nx es hs sums cs need,
+    Settings.cmin c < two32 -> ArrayTree.h_size h < two32 -> need + c_arraySlabHeaderSize <= two32 ->
+    let d := ArrayTree.AD h nx es in
+    let m := ArrayTree.AM h hs sums cs in
+    GoFuncs.ArrayDataSlab_IsFull (Settings.cmax c) (ArrayTree.h_size h) = ArrayTree.n_is_full c d /\
+    GoFuncs.ArrayDataSlab_IsUnderflow (Settings.cmin c) (ArrayTree.h_size h) = underflow_result (ArrayTree.n_underflow c d) /\
+    GoFuncs.ArrayMetaDataSlab_IsFull (Settings.cmax c) (ArrayTree.h_size h) = ArrayTree.n_is_full c m /\
+    GoFuncs.ArrayMetaDataSlab_IsUnderflow (Settings.cmin c) (ArrayTree.h_size h) = underflow_result (ArrayTree.n_underflow c m) /\
+    GoFuncs.ArrayMetaDataSlab_CanLendToLeft (Settings.cmin c) (ArrayTree.h_size h) need = ArrayTree.n_can_lend_to_left c m need /\
+    GoFuncs.ArrayMetaDataSlab_CanLendToRight (Settings.cmin c) (ArrayTree.h_size h) need = ArrayTree.n_can_lend_to_right c m need.
+Proof.
+  intros c h nx es hs sums cs need H1 H2 H3 d m.
+  exact (conj (gen_ArrayDataSlab_IsFull_eq c h nx es)
+        (conj (gen_ArrayDataSlab_IsUnderflow_eq c h nx es H1)
+        (conj (gen_ArrayMetaDataSlab_IsFull_eq c h hs sums cs)
+        (conj (gen_ArrayMetaDataSlab_IsUnderflow_eq c h hs sums cs H1)
+        (conj (gen_ArrayMetaDataSlab_CanLendToLeft_eq c h hs sums cs need H2 H3)
+              (gen_ArrayMetaDataSlab_CanLendToRight_eq c h hs sums cs need H2 H3)))))).
+Qed.
+
+Lemma gen_map_predicates_eq :
+  forall c h nx es hs cs need,
+    Settings.cmin c < two32 -> MapTree.mh_size h < two32 -> need + c_mapSlabHeaderSize <= two32 ->
+    let d := MapTree.MD h nx es in
+    let m := MapTree.MM h hs cs in
+    GoFuncs.MapDataSlab_IsFull (Settings.cmax c) (MapTree.mh_size h) false = MapTree.n_is_full c d /\
+    GoFuncs.MapDataSlab_IsUnderflow (Settings.cmin c) (MapTree.mh_size h) false = underflow_result (MapTree.n_underflow c d) /\
+    (forall mx mn sz, GoFuncs.MapDataSlab_IsFull mx sz true = false /\ GoFuncs.MapDataSlab_IsUnderflow mn sz true = (0, false)) /\
+    GoFuncs.MapMetaDataSlab_IsFull (Settings.cmax c) (MapTree.mh_size h) = MapTree.n_is_full c m /\
+    GoFuncs.MapMetaDataSlab_IsUnderflow (Settings.cmin c) (MapTree.mh_size h) = underflow_result (MapTree.n_underflow c m) /\
+    GoFuncs.MapMetaDataSlab_CanLendToLeft (Settings.cmin c) (MapTree.mh_size h) need = MapTree.n_can_lend_to_left c m need /\
+    GoFuncs.MapMetaDataSlab_CanLendToRight (Settings.cmin c) (MapTree.mh_size h) need = MapTree.n_can_lend_to_right c m need.
+Proof.
+  intros c h nx es hs cs need H1 H2 H3 d m.
+  exact (conj (gen_MapDataSlab_IsFull_eq c h nx es)
+        (conj (gen_MapDataSlab_IsUnderflow_eq c h nx es H1)
+        (conj (fun mx mn sz => conj (gen_MapDataSlab_IsFull_anysize mx sz) (gen_MapDataSlab_IsUnderflow_anysize mn sz))
+        (conj (gen_MapMetaDataSlab_IsFull_eq c h hs cs)
+        (conj (gen_MapMetaDataSlab_IsUnderflow_eq c h hs cs H1)
+        (conj (gen_MapMetaDataSlab_CanLendToLeft_eq c h hs cs need H2 H3)
+              (gen_MapMetaDataSlab_CanLendToRight_eq c h hs cs need H2 H3))))))).
+Qed.
+
+(* the uint32 hypothesis on the request is needed: a request within 13 of 2^32 makes 14 * n wrap to a small
+   number in the Go code, which then answers "can lend" where the unbounded model says no.  Unreachable:
+   the only caller passes an underflow deficit (< minThreshold). *)
+Example gen_can_lend_wraps_outside_domain :
+  let c := Settings.set_threshold 1024 in
+  let h := ArrayTree.mkhdr 7 1000 50 in
+  GoFuncs.ArrayMetaDataSlab_CanLendToLeft (Settings.cmin c) (ArrayTree.h_size h) 4294967295 = true /\
+  ArrayTree.n_can_lend_to_left c (ArrayTree.AM h [] [] []) 4294967295 = false.
+Proof. vm_compute. split; reflexivity. Qed.
+
 (* cbor_tag_nums.go *)
 Lemma gen_ReservedCBORTagNumberRange_eq :
   GoFuncs.ReservedCBORTagNumberRange = (c_minInternalCBORTagNumber, c_maxInternalCBORTagNumber).
@@ -417,3 +678,21 @@ Proof. vm_compute. repeat split. Qed.
 Example gen_example_safe_add :
   GoFuncs.safeAdd2Uint32 4294967295 1 = (0, false) /\ GoFuncs.safeAdd2Uint32 4294967294 1 = (4294967295, true).
 Proof. split; reflexivity. Qed.
+
+(* rebalancing predicates at the default slab size: both answers occur on both sides *)
+Example gen_example_predicates :
+  let c := Settings.set_threshold 1024 in
+  Settings.cmin c = 512 /\ Settings.cmax c = 1536 /\
+  map (GoFuncs.ArrayDataSlab_IsFull (Settings.cmax c)) [1536; 1537] = [false; true] /\
+  map (GoFuncs.MapMetaDataSlab_IsUnderflow (Settings.cmin c)) [511; 512] = [(1, true); (0, false)] /\
+  (* an index slab of 12 + 14*40 = 572 bytes asked for 56 bytes gives up 4 headers: 516 > 512;
+     asked for 57 bytes it would give up 5: 502 is not > 512 *)
+  map (GoFuncs.ArrayMetaDataSlab_CanLendToLeft (Settings.cmin c) 572) [40; 56; 57; 60] = [true; true; false; false] /\
+  map (ArrayTree.n_can_lend_to_left c (ArrayTree.AM (ArrayTree.mkhdr 1 572 0) [] [] [])) [40; 56; 57; 60] = [true; true; false; false] /\
+  map (GoFuncs.MapMetaDataSlab_CanLendToRight (Settings.cmin c) 570) [54; 55] = [true; false] /\
+  map (MapTree.n_can_lend_to_right c (MapTree.MM (MapTree.mkmhdr 1 570 0) [] [])) [54; 55] = [true; false].
+Proof. vm_compute. repeat split. Qed.
+Example gen_example_predicate_domain :
+  let c := Settings.set_threshold 1024 in
+  Settings.cmin c < two32 /\ 572 < two32 /\ 60 + c_arraySlabHeaderSize <= two32.
+Proof. vm_compute. repeat split; discriminate. Qed.
